@@ -75,6 +75,7 @@ def probes_for(rng, n, blob=False):
     for j in sorted({0, 1, 15, 16, 17, 31, 32, n // 2, n - 1}):
         if 0 <= j < n: p.append("t%d" % j)
     p += ["x1", "x16", "x%d" % rng.randint(2, 200)]
+    p += ["j1", "j%d" % rng.randint(10 ** 7, 10 ** 8)]     # stored bytes replaced by plaintext JSON (12 and 19 bytes)
     pos = {0, 15, 16, n - 17, n - 16, n - 1, rng.randrange(n), rng.randrange(n)}
     for q in sorted(pos):
         if 0 <= q < n: p.append("f%d.%d" % (q, rng.randint(0, 7)))
@@ -195,7 +196,9 @@ def run(ctx):
         nprobe_tamper = len([p for p in pr if not p.startswith("u")])
         bad = [(p, c) for p, c in zip(pr, pres) if not p.startswith("u") and c not in ERR]
         if bad:
-            viol.append(("tampered ciphertext accepted by the decoder: " + str(bad[:3]), case, o[:300], None))
+            kinds = {"t": "truncation", "x": "extension", "f": "bit flip", "j": "stored bytes replaced by plaintext JSON"}
+            viol.append(("tampered %s ciphertext accepted by the decoder (content returned instead of an error): %s" % (kind, ", ".join(sorted({kinds[p[0]] for p, _ in bad}))),
+                         dict(case, accepted_probes=bad[:6]), o[:300], None))
         for c in pres: bump("probe/" + c)
         if kind == "blob" and z != "n" and len(data) == 0:
             bump("empty_compressed_blob_corner_rt_" + f["rt"])
